@@ -74,6 +74,7 @@ var Tokens = []string{
 	": ", "\n: def", "term\n: def", "'", "\"", "--", "---", "...", "<<", ">>", "'s", "\"q\"", "'90", "'90s", "'tis", "''", "\"\"", "1/2", "9", "0", "'a'", "a'b", "(\"", "\")",
 	"{#id}", "{.c}", "{#i .c k=\"v\"}", "{k=v}", " {#x}", "{", "}", "{#a<b}",
 	"{id=[]}", "{title=[]}", "{data-x=[]}", "{k=[]}", "{title=[[]]}", "{title={}}", "{title=\"\"}", "{title=''}", "{. .x}", "{.}", "{#}", "{k=}", "# a {title=[]}\n", "# a {id=[] .c}\n", "{title=[\"\"]}", "{title=0}", "{title=-0}", "{title=1e999}",
+	"{.a class=null}", "{class=null .b}", "{class=null class=x}", "# T {.a class=null}\n",
 	"{id=1}", "{id=true}", "{id=-1.5e3}", "{id=[1,\"a\"]}", "{id={a=1}}", "{id=\"x\"}", "{class=1}", "{.a class=\"b\"}", "{id=null}", "{title=\"a\\\"b\"}", "{data-x=1}", "{onclick=\"x\"}", "# h {id=1}\n", "h {id=1}\n===\n",
 	// a "paragraph" that a paragraph transformer takes away (only definitions; a table head) directly followed by a line that
 	// asks for the paragraph before it (Setext underline, definition description, delimiter row), also as a later item
@@ -754,6 +755,14 @@ var DeepFamilies = []DeepFamily{
 	{"multi-line-inline-title", func(n int) []byte {
 		n = capN(n, 500)
 		return []byte("[a](/u \"" + rep("t\n", n) + "t\") ![b](/v '" + rep("s\n", n) + rep("s", 70) + "') [c](/w (" + rep("r\n", n+1) + "r))\n")
+	}},
+	{"multi-line-inline-title-long-first-line", func(n int) []byte {
+		n = capN(n, 3000)
+		return []byte("[a](/u \"" + rep("t", n) + "\nsecond line\") ![b](/v '" + rep("s", n) + "\nx\ny') [c](/w (" + rep("r", n) + "\nz))\n\n> [d](/u \"" + rep("q", n) + "\n> in a quote\")\n\n- ![e](/v '" + rep("p", n) + "\n  in an item')\n")
+	}},
+	{"multi-line-code-span-long-first-line", func(n int) []byte {
+		n = capN(n, 3000)
+		return []byte("`" + rep("c", n) + "\nsecond` and <span title=\"" + rep("h", n) + "\nx\"> and [" + rep("l", n) + "\nm](/u)\n\n> `" + rep("d", n) + "\n> e`\n")
 	}},
 	{"wrapped-reference-label", func(n int) []byte {
 		n = capN(n, 300)
